@@ -7,6 +7,8 @@
 //!   scenario = (L cfg ops), cfg as in c00pipe::build_host (keys used: files, cache, fcache, vary, report,
 //!              default_ext, disable_ims)
 //!   op       = (L (N 0) addr method target headers body) | (L (N 1) target) | (L (N 2)) | (L (N 3) ms)
+//!            | (L (N 4) (B rel) (B content)): the fixture (re)writes the file public/<rel> (written beside it and renamed
+//!              into place, so that the server never reads half a file); result (L)
 //!   addr     = (N n)            n < 65536: 10.0.(n/256).(n%256)        (as c00pipe::sockaddr)
 //!            | (L (N 4) (N v))  the IPv4 address with the 32-bit value v
 //!            | (L (N 6) (N v))  the IPv6 address with the 128-bit value v
@@ -17,7 +19,7 @@
 //! component `guards.wire` (every request over its own loopback HTTP/1.1 connection served by
 //!   `kvarn::handle_connection` with the chosen peer address, so that what is judged is what `SendKind::send`
 //!   wrote: Range slicing, the HEAD rule, Package extensions, content-length):
-//!   op       = (L (N 0) addr method target headers allow twin) | (L (N 1) target) | (L (N 2)) | (L (N 3) ms)
+//!   op       = (L (N 0) addr method target headers allow twin) | (L (N 1) target) | (L (N 2)) | (L (N 3) ms) | (L (N 4) rel content)
 //!              allow = name of the fixture file whose SECRET marker this reply may carry ("" = none)
 //!              twin  = 0 | 1 + index of an earlier request op whose answer this one must equal byte for byte
 //!                      (status, every header but `date`, the value of `last-modified` excepted, body)
@@ -52,6 +54,23 @@ fn customize() -> Box<pipe::Customize> {
             }
         }
     })
+}
+
+/// op 4: (re)write `public/<rel>` of the fixture directory. `rel` is a plain relative path (no empty, `.` or `..` component):
+/// anything else is "input not expressible".  `Err(true)` = not expressible, `Err(false)` = the write itself failed (harness trouble)
+fn write_public(b: &pipe::Built, rel: &[u8], content: &[u8]) -> Result<(), bool> {
+    let rel = std::str::from_utf8(rel).map_err(|_| true)?;
+    if rel.is_empty() || rel.split('/').any(|c| c.is_empty() || c == "." || c == ".." || c.contains('\0')) {
+        return Err(true);
+    }
+    let dir = b.dir.as_ref().ok_or(true)?;
+    let full = dir.join("public").join(rel);
+    let parent = full.parent().ok_or(true)?;
+    std::fs::create_dir_all(parent).map_err(|_| false)?;
+    static N: std::sync::atomic::AtomicUsize = std::sync::atomic::AtomicUsize::new(0);
+    let tmp = dir.join(format!(".write-{}", N.fetch_add(1, std::sync::atomic::Ordering::SeqCst)));
+    std::fs::write(&tmp, content).map_err(|_| false)?;
+    std::fs::rename(&tmp, &full).map_err(|_| false)
 }
 
 /// the client address of an operation
@@ -161,6 +180,16 @@ async fn run_ops(b: &pipe::Built, ops: &[X]) -> Option<Vec<X>> {
             3 => {
                 tokio::time::sleep(Duration::from_millis(l.get(1)?.as_n()? as u64)).await;
                 out.push(X::L(vec![]));
+            }
+            4 => {
+                if l.len() != 3 {
+                    return None;
+                }
+                match write_public(b, l[1].as_b()?, l[2].as_b()?) {
+                    Ok(()) => out.push(X::L(vec![])),
+                    Err(true) => return Some(vec![X::N(96)]),
+                    Err(false) => return Some(vec![X::N(93), X::b("the fixture file could not be written")]),
+                }
             }
             _ => return None,
         }
@@ -388,6 +417,15 @@ async fn wire_ops(b: &pipe::Built, ops: &[X]) -> Result<Vec<WireOut>, X> {
             3 => {
                 tokio::time::sleep(Duration::from_millis(l.get(1).and_then(X::as_n).ok_or_else(X::bad)? as u64)).await;
                 out.push(WireOut::Other);
+            }
+            4 => {
+                let rel = l.get(1).and_then(X::as_b).ok_or_else(X::bad)?;
+                let content = l.get(2).and_then(X::as_b).ok_or_else(X::bad)?;
+                match write_public(b, rel, content) {
+                    Ok(()) => out.push(WireOut::Other),
+                    Err(true) => return Err(X::L(vec![X::N(96)])),
+                    Err(false) => return Err(trouble("the fixture file could not be written")),
+                }
             }
             _ => return Err(X::bad()),
         }
